@@ -465,6 +465,9 @@ class PartialFactory:
         because it recursively substitutes with partial models.
         This allows us to implement smart deep merge for partials.
         """
+        if issubclass(mcls, cls.partial_mixin):
+            return mcls  # a partial model is its own partial
+
         if cls not in _partials:  # first use of this partial factory
             _partials[cls] = {}
             _forwardrefs[cls] = {}
